@@ -127,8 +127,22 @@ pub fn check_world_ids(ctx: &Ctx, archs: &[RArch], truth: &dyn Fn(&str) -> bool,
                 ctx.nontrivial.fetch_add(1, Ordering::Relaxed);
             }
             if gen_world && !e.archs.is_empty() {
-                let ts = generate::generate_world(&d, &decl);
-                ctx.scan_unsafe(&ts, &decl);
+                match drive::gen_world(&d, &decl) {
+                    Ok(ts) => ctx.scan_unsafe(&ts, &decl),
+                    Err(m) => {
+                        ctx.report(prop, "well-formed-declaration-rejected", format!("{} (ids {:?} are well-formed)", m, e.archs.len()), decl.clone());
+                        return;
+                    }
+                }
+                // the query macros receive the world through its serialised form: it must survive the round trip
+                match drive::b64_roundtrip(&d) {
+                    Ok((_, back)) => {
+                        if &data_to_ids(&back) != e {
+                            ctx.report(prop, "ids-differ-after-serialisation", format!("the serialised world data reads back as {:?}, expected {:?}", data_to_ids(&back).archs.len(), e.archs.len()), decl.clone());
+                        }
+                    }
+                    Err(m) => ctx.report(prop, "well-formed-declaration-rejected", format!("{} ({} archetypes, well-formed)", m, e.archs.len()), decl.clone()),
+                }
             }
         }
         (Err(m), Err(e)) => {
@@ -179,8 +193,16 @@ fn run_c15(thorough: bool, threads: usize, ctx: &Ctx) -> serde_json::Value {
         ];
         check_world_ids(ctx, &archs, &truth, "C15", true);
     });
+    // the size boundary of a declaration: 255, 256 (the largest legal world) and 257 archetypes with implicit ids, 257 written
+    // with the first one disabled (= 256), and explicit start ids that make the count run past 255 early
+    let mut boundary = 0usize;
+    for (n, first_off, start) in [(255usize, false, None), (256, false, None), (257, false, None), (257, true, None), (56, false, Some(200u8)), (57, false, Some(200u8))] {
+        let archs: Vec<RArch> = (0..n).map(|i| RArch { name: format!("A{}", i), id: if i == 0 { start } else { None }, cfg: (first_off && i == 0).then(|| "poff".to_string()), comps: vec![RComp { name: "Ca".into(), id: None, cfg: None }] }).collect();
+        check_world_ids(ctx, &archs, &truth, "C15", true);
+        boundary += 1;
+    }
     ctx.sample(serde_json::json!({"declaration": decl_text("Wx", &[RArch { name: "A0".into(), id: Some(254), cfg: None, comps: vec![RComp { name: "Ca".into(), id: None, cfg: None }] }, RArch { name: "A1".into(), id: None, cfg: Some("poff".into()), comps: vec![RComp { name: "Ca".into(), id: None, cfg: None }] }, RArch { name: "A2".into(), id: None, cfg: None, comps: vec![RComp { name: "Ca".into(), id: None, cfg: None }] }])}));
-    serde_json::json!({"max_items": kmax, "id_choices": "none,0,1,2,254,255", "disabled_flag": true, "declarations": jobs.len() + mixed.len()})
+    serde_json::json!({"max_items": kmax, "id_choices": "none,0,1,2,254,255", "disabled_flag": true, "declarations": jobs.len() + mixed.len() + boundary, "size_boundary": "255 / 256 / 257 archetypes (implicit ids), 257 with one disabled, 56 / 57 from id 200"})
 }
 
 // ---------------------------------------------------------------------------------------------
@@ -345,7 +367,13 @@ fn run_c05(thorough: bool, threads: usize, ctx: &Ctx) -> serde_json::Value {
                 }
             };
             let ids = data_to_ids(&d);
-            let b64 = d.to_base64();
+            let b64 = match drive::b64_roundtrip(&d) {
+                Ok((t, _)) => t,
+                Err(e) => {
+                    ctx.report("C05", "world-rejected", e, decl.clone());
+                    return;
+                }
+            };
             let names: Vec<String> = archs.iter().map(|a| a.name.clone()).collect();
             let alpha = param_alphabet(pool, &names);
             for params in param_lists(&alpha, *max_len) {
@@ -358,9 +386,50 @@ fn run_c05(thorough: bool, threads: usize, ctx: &Ctx) -> serde_json::Value {
             }
         });
     }
+    // the parameter-count boundary: an archetype with the maximum number of components, queries that name all of them (plus
+    // handle parameters), in every generator. (16 without the 32_components feature of the macro crate, which px does not enable.)
+    let maxc = 16usize;
+    let wide: Vec<RArch> = vec![
+        RArch { name: "Ab".into(), id: None, cfg: None, comps: (0..maxc).map(|i| RComp { name: format!("K{:02}", i), id: None, cfg: None }).collect() },
+        RArch { name: "Q".into(), id: None, cfg: None, comps: vec![RComp { name: "K00".into(), id: None, cfg: None }, RComp { name: "Kx".into(), id: None, cfg: None }] },
+    ];
+    let mut max_arity_queries = 0usize;
+    {
+        let decl = decl_text("Wx", &wide);
+        match world_data(&decl, &always).and_then(|(d, _)| drive::b64_roundtrip(&d).map(|(t, _)| (data_to_ids(&d), t))) {
+            Err(e) => ctx.report("C05", "world-rejected", e, decl.clone()),
+            Ok((ids, b64)) => {
+                let comp = |i: usize, m: bool| Param { ty: PType::Comp(format!("K{:02}", i)), is_mut: m, cfg: None };
+                let h = |ty: PType| Param { ty, is_mut: false, cfg: None };
+                let mut lists: Vec<Vec<Param>> = Vec::new();
+                for n in [maxc - 1, maxc] {
+                    lists.push((0..n).map(|i| comp(i, false)).collect());
+                    lists.push((0..n).map(|i| comp(i, i % 2 == 0)).collect());
+                    let mut l: Vec<Param> = (0..n).map(|i| comp(i, true)).collect();
+                    l.push(h(PType::EntityWild));
+                    lists.push(l.clone());
+                    l.push(h(PType::DirectAny));
+                    lists.push(l.clone());
+                    l.push(h(PType::EntityAny));
+                    l.push(h(PType::Direct("Ab".into())));
+                    lists.push(l);
+                    // the last component through a OneOf that only Ab can satisfy / that both archetypes could
+                    let mut o: Vec<Param> = (0..n - 1).map(|i| comp(i, false)).collect();
+                    o.push(Param { ty: PType::OneOf(vec![format!("K{:02}", n - 1), "Kx".into()]), is_mut: true, cfg: None });
+                    lists.push(o);
+                }
+                for params in &lists {
+                    for mac in MACS {
+                        check_query(ctx, &ids, &b64, &decl, params, mac, &always, "C05");
+                        max_arity_queries += 1;
+                    }
+                }
+            }
+        }
+    }
     ctx.sample(serde_json::json!({"world": "ecs_archetype!(Ab, Ca, Cb); ecs_archetype!(Abc, Cb, Cc);", "query": "ecs_iter!(world, |p0: &mut OneOf<Ca, Cc>, p1: &Entity<_>| ..)", "expect": "Ab with p0 bound to Ca, Abc with p0 bound to Cc"}));
     ctx.sample(serde_json::json!({"world": "ecs_archetype!(Ab, Ca); ecs_archetype!(Abc, Ca, Cb);", "query": "ecs_find!(world, entity, |p0: &Ca, p1: &Entity<Ab>| ..)", "expect": "Ab only (name Ab must not match Abc)"}));
-    serde_json::json!({"worlds": total_worlds, "plan": detail, "generators": 5})
+    serde_json::json!({"worlds": total_worlds, "plan": detail, "generators": 5, "max_arity_queries": max_arity_queries, "max_arity": "15 / 16 component parameters + up to 4 handle parameters"})
 }
 
 // ---------------------------------------------------------------------------------------------
